@@ -58,6 +58,15 @@ def gen_cases(rng, tier):
                 s = rng.randrange(2)
                 ops = [[2 * i + s, 1], [2 * j + s, 0]]
                 ents = [[ops, 2, 1], [c01._adjoint_ops(ops), 2, -1]]
+                if rng.random() < 0.6:
+                    # three or more terms: not "individual", so time_evolve goes through iht() and the Taylor propagator
+                    # while apply goes through terms_hamiltonian() - the same HELD object on both routes
+                    p2, q2 = rng.randrange(norb), rng.randrange(norb)
+                    s2 = rng.randrange(2)
+                    ents.append([[[2 * p2 + s2, 1], [2 * p2 + s2, 0]], rng.randint(1, 2), 0])
+                    if rng.random() < 0.5 and p2 != q2:
+                        o2 = [[2 * p2 + s2, 1], [2 * q2 + s2, 0]]
+                        ents += [[o2, 1, -1], [c01._adjoint_ops(o2), 1, 1]]
                 ham = {'cls': 'sparse', 'rank': 0, 'entries': ents, 'e0': [0, 0], 'real': False}
             ham['e0'] = rng.choice([[0, 0], [1, 0]])
             hams.append(ham)
@@ -85,6 +94,11 @@ def gen_cases(rng, tier):
                 ops.append([kind, h])
             else:
                 ops.append(['flip'])
+        # every held Hamiltonian object is used on one route and then on another (apply / expectation value first, then
+        # propagation and its iht data, then apply again): results must not depend on that order
+        for h in range(NH):
+            a, b, t = rng.randrange(NW), rng.randrange(NW), rng.randrange(NW)
+            ops += [['apply', a, h, t], ['evolve', b, h, t], ['iht', h], ['expect', a, h, b], ['apply', b, h, t]]
         cases.append({'kind': 'hist', 'norb': norb, 'mode': mode, 'n': nn, 'sz': sz, 'wf': wf, 'hams': hams, 'ops': ops})
     return cases
 
@@ -176,7 +190,8 @@ def _do(op, W, H, fqe, copy, numpy):
         r = H[op[1]].iht(0.25)
         if isinstance(r, tuple):
             return ('n', None, [[numpy.asarray(a).real.tolist(), numpy.asarray(a).imag.tolist()] for a in r])
-        return ('n', None, _hsnap(r)[0])
+        import hashlib
+        return ('n', None, [_hsnap(r)[0], hashlib.sha256(repr(_hsnap(r)).encode()).hexdigest()])
     if k == 'flip':
         import fqe.settings
         fqe.settings.use_accelerated_code = not fqe.settings.use_accelerated_code
